@@ -266,3 +266,26 @@ def run(ctx):
         else:
             r6.violation("bytestream_bsend:negative-accumulate", "the offset is advanced by %s, which may be the -1 of a refused attempt: bytes already sent are sent again and the "
                          "stream shifts" % f.show(rhs), loc=f.loc(e))
+
+    # ------------------------------------------------------------------ R7
+    r7 = ctx.rule("C02.R7", "OpenSSL is never asked to write or read zero bytes: a zero-sized request is answered before it reaches SSL_write/SSL_read")
+    eng7 = B.Engine(P)
+    nio = 0
+    btl = [t for t in TP.ops_tables(P) if t.proto == "btls"][0]
+    for f in P.fns_in(btl.slots["send"].file.split("/")[-1]):
+        fb = None
+        for c in f.calls():
+            n = f.nodes[c]
+            if n.get("callee") != "SSL_write":
+                continue
+            nio += 1
+            r7.instance("%s: %s" % (f.qname, f.show(c)[:50]))
+            fb = fb or B.FnBounds(eng7, f)
+            v = fb.lin(n["args"][2])
+            if v is not None and fb.prove_le(fb.before.get(c, B.Facts()), B.lin_const(1), v):
+                r7.ok("%s: SSL_write is reached only with a length >= 1" % f.qname, "difference constraints from the zero-length guard")
+            else:
+                r7.violation("%s:SSL_write-zero" % f.name, "SSL_write can be reached with a length of 0: with a record pending after a refused send OpenSSL treats the call as a "
+                             "bad retry and the healthy stream is torn down (EPROTO); without one it is undefined in OpenSSL's API", loc=f.loc(c))
+    if nio < 1:
+        raise Broken("C02.R7: no SSL_write in the btls transport")
